@@ -128,17 +128,23 @@ var c10Keys = map[string]c10Key{
 	"decimal-no-keyid":      {file: "decimal_priv.asc", pub: "decimal_pub"},
 	// the key file reached through a symbolic link (a mounted secret)
 	"expired-subkey":    {file: "GENSUB:expired", pub: "pubkey"},
+	// a protected key with two signing subkeys (a rotation in progress); the key id names the older / the newer one
+	"two-signing-subkeys-older": {file: "GEN2SUB:older", pub: "pubkey", givePass: "hunter2", passVar: "NFPM_PASSPHRASE"},
+	"two-signing-subkeys-newer": {file: "GEN2SUB:newer", pub: "pubkey", givePass: "hunter2", passVar: "FORMAT"},
 	"armored-symlink":   {file: "LINK:privkey_unprotected.asc", pub: "pubkey"},
 	"protected-symlink": {file: "LINK:privkey.asc", pub: "pubkey", givePass: "hunter2", passVar: "FORMAT"},
 	"pkcs1-symlink":     {file: "LINK:rsa_unprotected.priv", pub: "rsa_unprotected.pub", apk: true},
 	"pkcs1":             {file: "rsa_unprotected.priv", pub: "rsa_unprotected.pub", apk: true},
 	// the private key followed by its public key in one file (as `openssl genrsa; openssl rsa -pubout >>` leaves it)
-	"pkcs1-then-public":     {file: "CONCAT:rsa_unprotected.priv+rsa_unprotected.pub", pub: "rsa_unprotected.pub", apk: true},
-	"pkcs8":                 {file: "rsa_pkcs8.priv", pub: "rsa_pkcs8.pub", apk: true},
-	"pkcs8-4096":            {file: "rsa4096.priv", pub: "rsa4096.pub", apk: true},
-	"encrypted-pem":         {file: "rsa.priv", pub: "rsa.pub", givePass: "hunter2", passVar: "FORMAT", apk: true},
-	"encrypted-pem-general": {file: "rsa.priv", pub: "rsa.pub", givePass: "hunter2", passVar: "NFPM_PASSPHRASE", apk: true},
-	"encrypted-pem-wrong":   {file: "rsa.priv", pub: "rsa.pub", givePass: "nope", passVar: "FORMAT", apk: true, wantFail: true},
+	// an unprotected RSA key while a passphrase is set anyway (the general variable, meant for another format's key)
+	"pkcs1-with-passphrase":        {file: "rsa_unprotected.priv", pub: "rsa_unprotected.pub", givePass: "hunter2", passVar: "NFPM_PASSPHRASE", apk: true},
+	"pkcs1-with-format-passphrase": {file: "rsa_unprotected.priv", pub: "rsa_unprotected.pub", givePass: "irrelevant", passVar: "FORMAT", apk: true},
+	"pkcs1-then-public":            {file: "CONCAT:rsa_unprotected.priv+rsa_unprotected.pub", pub: "rsa_unprotected.pub", apk: true},
+	"pkcs8":                        {file: "rsa_pkcs8.priv", pub: "rsa_pkcs8.pub", apk: true},
+	"pkcs8-4096":                   {file: "rsa4096.priv", pub: "rsa4096.pub", apk: true},
+	"encrypted-pem":                {file: "rsa.priv", pub: "rsa.pub", givePass: "hunter2", passVar: "FORMAT", apk: true},
+	"encrypted-pem-general":        {file: "rsa.priv", pub: "rsa.pub", givePass: "hunter2", passVar: "NFPM_PASSPHRASE", apk: true},
+	"encrypted-pem-wrong":          {file: "rsa.priv", pub: "rsa.pub", givePass: "nope", passVar: "FORMAT", apk: true, wantFail: true},
 	// an encrypted PEM key whose passphrase begins and ends with a blank (generated at run time from the unprotected key)
 	"encrypted-pem-padded-pass": {file: "GENPEM: hunter2 ", pub: "rsa_unprotected.pub", givePass: " hunter2 ", passVar: "FORMAT", apk: true},
 	// a passphrase that looks like it held references (it is a value, not a template)
@@ -146,8 +152,8 @@ var c10Keys = map[string]c10Key{
 	"pem-garbage":               {file: "wrong_key_format.priv", pub: "rsa.pub", apk: true, wantFail: true},
 }
 
-var c10PGPKeys = []string{"expired-subkey", "armored-symlink", "protected-symlink", "subkey-only-with-passphrase", "armored-with-passphrase", "binary-with-passphrase", "armored-leading-blank", "armored-leading-text", "armored-crlf", "armored-trailing-text", "keyid-decimal", "decimal-no-keyid", "armored", "binary", "protected", "protected-binary", "subkey-only", "keyid-primary", "keyid-subkey", "keyid-primary-upper", "keyid-subkey-mixed", "wrong-passphrase", "no-passphrase", "multiple-keys", "keyid-invalid", "keyid-garbage-prefix", "keyid-garbage-suffix", "keyid-too-long", "key-missing"}
-var c10APKKeys = []string{"pkcs1-then-public", "pkcs1-symlink", "encrypted-pem-dollar-pass", "encrypted-pem-padded-pass", "pkcs1", "pkcs8", "pkcs8-4096", "encrypted-pem", "encrypted-pem-general", "encrypted-pem-wrong", "pem-garbage"}
+var c10PGPKeys = []string{"two-signing-subkeys-older", "two-signing-subkeys-newer", "expired-subkey", "armored-symlink", "protected-symlink", "subkey-only-with-passphrase", "armored-with-passphrase", "binary-with-passphrase", "armored-leading-blank", "armored-leading-text", "armored-crlf", "armored-trailing-text", "keyid-decimal", "decimal-no-keyid", "armored", "binary", "protected", "protected-binary", "subkey-only", "keyid-primary", "keyid-subkey", "keyid-primary-upper", "keyid-subkey-mixed", "wrong-passphrase", "no-passphrase", "multiple-keys", "keyid-invalid", "keyid-garbage-prefix", "keyid-garbage-suffix", "keyid-too-long", "key-missing"}
+var c10APKKeys = []string{"pkcs1-with-passphrase", "pkcs1-with-format-passphrase", "pkcs1-then-public", "pkcs1-symlink", "encrypted-pem-dollar-pass", "encrypted-pem-padded-pass", "pkcs1", "pkcs8", "pkcs8-4096", "encrypted-pem", "encrypted-pem-general", "encrypted-pem-wrong", "pem-garbage"}
 
 // c10Payloads is the number of payload shapes (0 = empty).
 const c10Payloads = 7
@@ -214,7 +220,8 @@ func init() {
 				}
 			}
 			// dpkg-sig takes any role name as type (builder is its default)
-			for _, st := range []string{"builder", "origin", "maint", "archive", "custom"} {
+			// (a role of twelve characters makes a member name that exactly fills the 16 bytes of an ar header)
+			for _, st := range []string{"builder", "origin", "maint", "archive", "custom", "buildmachine", "qa"} {
 				if !yield(C10Case{Format: "deb", Method: "dpkg-sig", Key: "armored", Payload: 1, Via: "file", SigType: st, FailJ: -1}) {
 					return
 				}
@@ -400,8 +407,17 @@ func viaFn(c C10Case) bool { return strings.HasPrefix(c.Via, "signfn") }
 
 var c10PubName = "pubkey"
 
+// c10PubPath: the public keyring the verifiers use - a file of the keys directory, or (absolute name) one the harness
+// generated for this case.
+func c10PubPath(env *engine.Env, ext string) string {
+	if filepath.IsAbs(c10PubName) {
+		return c10PubName + ext
+	}
+	return keyPath(env, c10PubName+ext)
+}
+
 func pubKeyring(env *engine.Env) (openpgp.EntityList, error) {
-	f, err := os.Open(keyPath(env, c10PubName+".asc"))
+	f, err := os.Open(c10PubPath(env, ".asc"))
 	if err != nil {
 		return nil, err
 	}
@@ -478,7 +494,7 @@ func verifyDetached(env *engine.Env, data, sig []byte) (signerKeyID string, err 
 	if gpgv := env.Tool("gpgv"); gpgv != "" {
 		dp, rm1 := tmpFile(env, "c10.data", data)
 		sp, rm2 := tmpFile(env, "c10.sig", sig)
-		gerr := gpgvGood(gpgv, "--keyring", keyPath(env, c10PubName+".gpg"), sp, dp)
+		gerr := gpgvGood(gpgv, "--keyring", c10PubPath(env, ".gpg"), sp, dp)
 		rm1()
 		rm2()
 		if (gerr == nil) != (err == nil) {
@@ -726,6 +742,70 @@ func checkC10(env *engine.Env, ci any) engine.Outcome {
 				return out
 			}
 			sigm["key_file"] = lp
+		}
+		if strings.HasPrefix(key.file, "GEN2SUB:") {
+			ent, err := privEntity(env)
+			if err != nil {
+				out.HarnessError = err.Error()
+				return out
+			}
+			t1 := time.Date(2021, 1, 2, 3, 4, 5, 0, time.UTC)
+			t2 := time.Date(2022, 6, 7, 8, 9, 10, 0, time.UTC)
+			n0 := len(ent.Subkeys)
+			for _, tt := range []time.Time{t1, t2} {
+				tt := tt
+				if err := ent.AddSigningSubkey(&packet.Config{Time: func() time.Time { return tt }, Algorithm: packet.PubKeyAlgoRSA, RSABits: 2048, DefaultHash: crypto.SHA256}); err != nil {
+					out.HarnessError = "cannot add a signing subkey: " + err.Error()
+					return out
+				}
+			}
+			older, newer := ent.Subkeys[n0], ent.Subkeys[n0+1]
+			pick := older
+			if strings.HasSuffix(key.file, ":newer") {
+				pick = newer
+			}
+			key.keyID = fmt.Sprintf("%016x", pick.PublicKey.KeyId)
+			// the public keyring for the verifiers, then the private keys locked with the passphrase
+			base := filepath.Join(env.Scratch, "gen-two-signing-subkeys-"+strings.TrimPrefix(key.file, "GEN2SUB:"))
+			var pb, pa, kb bytes.Buffer
+			if err := ent.Serialize(&pb); err != nil {
+				out.HarnessError = "cannot write the generated public key: " + err.Error()
+				return out
+			}
+			if aw, err := armor.Encode(&pa, openpgp.PublicKeyType, nil); err == nil {
+				aw.Write(pb.Bytes())
+				aw.Close()
+			}
+			os.WriteFile(base+"-pub.gpg", pb.Bytes(), 0o644)
+			os.WriteFile(base+"-pub.asc", pa.Bytes(), 0o644)
+			pass := []byte(key.givePass)
+			if err := ent.PrivateKey.Encrypt(pass); err != nil {
+				out.HarnessError = "cannot lock the generated key: " + err.Error()
+				return out
+			}
+			for i := range ent.Subkeys {
+				if ent.Subkeys[i].PrivateKey != nil {
+					if err := ent.Subkeys[i].PrivateKey.Encrypt(pass); err != nil {
+						out.HarnessError = "cannot lock a generated subkey: " + err.Error()
+						return out
+					}
+				}
+			}
+			aw, err := armor.Encode(&kb, openpgp.PrivateKeyType, nil)
+			if err == nil {
+				err = ent.SerializePrivateWithoutSigning(aw, nil)
+				aw.Close()
+			}
+			if err != nil {
+				out.HarnessError = "cannot write the generated key: " + err.Error()
+				return out
+			}
+			if err := os.WriteFile(base+".asc", kb.Bytes(), 0o600); err != nil {
+				out.HarnessError = err.Error()
+				return out
+			}
+			sigm["key_file"] = base + ".asc"
+			c10PubName = base + "-pub"
 		}
 		if strings.HasPrefix(key.file, "GENSUB:") {
 			// the unprotected test key with one more subkey: an encryption subkey that expired years ago (rotated out).
@@ -1053,7 +1133,7 @@ func checkC10(env *engine.Env, ci any) engine.Outcome {
 		// second opinion (only for signatures nfpm made itself; a callback's signature is the harness's own)
 		if gpgv := env.Tool("gpgv"); gpgv != "" && c.Via == "file" {
 			sp, rm := tmpFile(env, "c10.clearsig", pkg.SigBlob)
-			gerr := gpgvGood(gpgv, "--keyring", keyPath(env, c10PubName+".gpg"), sp)
+			gerr := gpgvGood(gpgv, "--keyring", c10PubPath(env, ".gpg"), sp)
 			rm()
 			if (gerr == nil) != (verr == nil) {
 				return harness(fmt.Sprintf("go-crypto (%v) and gpgv (%v) disagree on the clear-signed manifest", verr, gerr))
